@@ -340,6 +340,28 @@ theorem revisit_block_is_wire_prefix (h : dc.Hom) (cfg : StreamCfg) (req : ReqIn
   rw [hr, List.take_take]
   exact List.take_prefix _ _
 
+/-- **C04 `revisit_needs_payload_identity`.**  A capture of a URL listed in the `--warc-dedup`
+index becomes a revisit record (block cut down to the header) only if BOTH runs computed
+payload digests and the two digests are the same string — never when the index was written,
+or the current run is made, with digests off.  (Digests are base32 SHA-1 strings: not empty,
+not the CDX placeholder.) -/
+theorem revisit_needs_payload_identity (old new : Option Str)
+    (hold : ∀ s, old = some s → s ≠ []) (hnew : ∀ s, new = some s → s ≠ lit "-")
+    (hit : revisitHit old new = true) : ∃ s, old = some s ∧ new = some s := by
+  unfold revisitHit cdxDigest lookupDigest at hit
+  cases old with
+  | none =>
+    cases new with
+    | none => simp [lit] at hit
+    | some n => simp at hit; exact absurd hit.symm (hnew n rfl)
+  | some o =>
+    cases new with
+    | none => simp at hit; exact absurd hit (hold o rfl)
+    | some n => simp at hit; exact ⟨o, rfl, by rw [hit]⟩
+
+example : revisitHit none none = false ∧ revisitHit (some (lit "ABC")) none = false ∧
+    revisitHit none (some (lit "ABC")) = false ∧ revisitHit (some (lit "ABC")) (some (lit "ABC")) = true := by decide
+
 /-! ### `_find_payload_offset`: the header block ends at the first *empty* line -/
 
 /-- a line as `readline` returns it: no LF but the final one -/
